@@ -27,9 +27,9 @@ Definition check_case (x : case) : N :=
     let c := mkCfg cl hdr nilbody cerr in
     let '(mouts, s') := run c ops (init c steps) in
     verdict (list_eqb out_eqb mouts outs && Nat.eqb (s_closes s') closes)
-            (no_panic outs && history_ok c steps ops outs closes)
+            (no_panic outs && history_strict_ok c steps ops outs closes)
   | CPair cA stepsA cB stepsB ops outs closesA closesB =>
     let '(mouts, (sA', sB')) := run2 cA cB ops (init cA stepsA) (init cB stepsB) in
     verdict (list_eqb out_eqb mouts outs && Nat.eqb (s_closes sA') closesA && Nat.eqb (s_closes sB') closesB)
-            (no_panic outs && pair_ok cA stepsA cB stepsB ops outs closesA closesB)
+            (no_panic outs && pair_strict_ok cA stepsA cB stepsB ops outs closesA closesB)
   end.
